@@ -120,8 +120,9 @@ func sinkFaults(c *simkit.Choices, x *simkit.Ctx) *simkit.Violation {
 	}
 	total := w.Writes
 	ks := pickKs(c, total)
+	failCount := c.N(3) // the failing write reports 0, len(p) or len(p)/2 bytes with its error
 	for _, k := range ks {
-		sc := &Scenario{Side: "sink", Target: string(f), Options: opts, Stream: model.OpsString(ops, 60), K: k, Total: total}
+		sc := &Scenario{Side: "sink", Target: string(f), Options: opts, Stream: model.OpsString(ops, 60), K: k, Total: total, BufSize: failCount}
 		simkit.SetCurrent(sc)
 		st.Eval(1)
 		st.Fault("write-fails-from-k")
@@ -130,6 +131,7 @@ func sinkFaults(c *simkit.Choices, x *simkit.Ctx) *simkit.Violation {
 		fw.FailFrom = k
 		fw.Err = &injErr{k}
 		fw.Clock = &x.Clock
+		fw.FailCount = failCount
 		var got error
 		failedAt := -1
 		pi := simkit.Guard(func() {
@@ -196,6 +198,7 @@ func foldSinkFaults(c *simkit.Choices, x *simkit.Ctx) *simkit.Violation {
 		st.Distinct(simkit.NewDigest().Str(sc.Target).Str(sc.Value).Int(k).Str(fmt.Sprint(opts)).Sum())
 		fw := simkit.NewWriter()
 		fw.FailFrom, fw.Err, fw.Clock = k, &injErr{k}, &x.Clock
+		fw.FailCount = k % 3
 		var got error
 		if pi := simkit.Guard(func() { got = run(fw) }); pi != nil {
 			return &simkit.Violation{Kind: "panic", Site: "sink/fold/" + string(f) + pi.Site, Detail: pi.Value + "\n" + pi.Stack, Scenario: sc}
@@ -250,6 +253,7 @@ func pipeSinkFaults(c *simkit.Choices, x *simkit.Ctx) *simkit.Violation {
 		st.Distinct(simkit.NewDigest().Str(sc.Target).Str(sc.Doc).Str(sc.Entry).Ints(reads).Int(k).Sum())
 		fw := simkit.NewWriter()
 		fw.FailFrom, fw.Err, fw.Clock = k, &injErr{k}, &x.Clock
+		fw.FailCount = k % 3
 		var got error
 		if pi := simkit.Guard(func() { got = run(fw) }); pi != nil {
 			return &simkit.Violation{Kind: "panic", Site: "sink/pipe/" + sc.Target + pi.Site, Detail: pi.Value + "\n" + pi.Stack, Scenario: sc}
